@@ -654,3 +654,6 @@ pub fn spec_static_find(name: &[u8], value: &[u8], max_len: usize) -> Option<usi
 pub fn spec_static_name_is(i: usize, name: &[u8]) -> bool {
     i < 99 && spec_bytes_eq(SPEC_STATIC_TABLE[i].0, name)
 }
+/// (kaniA) The N-th reserved identifier, in 128-bit arithmetic so the spec itself cannot overflow:
+/// RFC 9114 "0x1f * N + 0x21 for non-negative integer values of N".  `spec_is_grease(x)` <=> exists N.
+pub fn spec_grease_nth(n: u64) -> u128 { 0x1f * (n as u128) + 0x21 }
